@@ -65,6 +65,12 @@ type Injector struct {
 
 	// Jitter, when set, is called at every site (stress runs: widen windows).
 	Jitter func(site int64)
+
+	// Hook, when set, is called at every site BEFORE the call is forwarded to the inner
+	// store (and before the inner store copies any argument). The harness may use it to
+	// run other work inside that window (it must not touch the object that is making
+	// the store call).
+	Hook func(site int, kind string)
 }
 
 // NewInjector creates an injector. plan maps 1-based site numbers to actions
@@ -79,6 +85,9 @@ func (in *Injector) Hit(kind string) (site int, act Action) {
 	site = int(n)
 	if in.Jitter != nil {
 		in.Jitter(n)
+	}
+	if in.Hook != nil {
+		in.Hook(site, kind)
 	}
 	if in.trace {
 		in.mu.Lock()
